@@ -102,6 +102,13 @@ def are_joinable(
     if any_symbols:
         return JoinableResult(False, "block2 has symbols referring to it")
 
+    # Symbols at the end of block1 designate the boundary between the two
+    # blocks; after a join they would refer to the end of block2's bytes.
+    if block2.size and any(
+        sym.at_end for sym in cache.reference_cache.get_references(block1)
+    ):
+        return JoinableResult(False, "block1 has symbols referring to its end")
+
     if isinstance(block1, gtirb.CodeBlock):
         assert isinstance(block2, gtirb.CodeBlock)
 
